@@ -311,6 +311,8 @@ func runTxnProp(r *Run, prop string) {
 	case "C06":
 		r.Rule = "histories over schemas with single and multi-column indexes, values drawn from 5 names x 4 integers so collisions are frequent; non-trivial = transaction that is rejected for a duplicate, or committed after touching an indexed column of >= 2 rows; distinct by (schema, history prefix, transaction)"
 	}
+	// the same histories through a real server: its decision to notify and commit
+	serverTxnStream(r, prop, nHist/10)
 	for h := 0; h < nHist; h++ {
 		ts := genTxnSchema(r.Rng, prop != "C06" || r.Rng.Intn(2) == 0)
 		im := newImplDB(ts)
